@@ -4,6 +4,7 @@ import (
 	"fmt"
 	"go/token"
 	"go/types"
+	"sort"
 	"strings"
 
 	"golang.org/x/tools/go/ssa"
@@ -46,6 +47,7 @@ func checkC03(c *an.Ctx) {
 	}})
 	if run := c.P.Func("pkg/runner", "TaskRunner", "Run"); run != nil {
 		boundedWaitsOpt(c, "C03.6", []*ssa.Function{run}, "TaskRunner.Run", waitOpts{polls: true, onlyChans: true, accepted: func(in ssa.Instruction) string { return locallyWoken(c.P, in) }})
+		lockLeaks(c, "C03.6", run)
 		n6 := 0
 		for _, o := range c.Obs {
 			if o.Rule == "C03.6" {
@@ -371,4 +373,43 @@ func cancelHelperValue(p *an.Prog, call *ssa.Call, flag int64) (an.AVal, bool) {
 		return an.AVal{}, false
 	}
 	return v, true
+}
+
+// lockLeaks: a mutex taken under a task run is given back by the function that took it, on every path to its exit
+// (directly or by a deferred unlock). A lock taken in one function and released in another (an Acquire/Release pair
+// around a phase of the run) is held on every path that forgets the release — an early return on an error — and the
+// next task that needs it never gets it.
+func lockLeaks(c *an.Ctx, rule string, run *ssa.Function) {
+	p := c.P
+	reach := p.Reach([]*ssa.Function{run}, func(e an.CallEdge) bool { return e.Kind != an.EdgeGo && an.InModule(e.Callee) })
+	var fns []*ssa.Function
+	for f := range reach {
+		if f.Blocks != nil {
+			fns = append(fns, f)
+		}
+	}
+	sort.Slice(fns, func(i, j int) bool { return fns[i].String() < fns[j].String() })
+	n := 0
+	for _, fn := range fns {
+		for _, op := range an.BlockingOps(fn) {
+			if op.Kind != "lock" && op.Kind != "rlock" {
+				continue
+			}
+			if _, isDefer := op.Instr.(*ssa.Defer); isDefer {
+				continue
+			}
+			n++
+			op := op
+			released, at := an.OnAllPathsToExit(op.Instr, func(x ssa.Instruction) bool { return an.IsUnlockOf(x, op) }, an.IsPanicExit)
+			if released {
+				continue
+			}
+			where := ""
+			if at != nil && len(at.Instrs) > 0 {
+				where = p.Pos(at.Instrs[len(at.Instrs)-1].Pos())
+			}
+			c.Bad(rule, an.Short(fn)+":"+op.Kind+"("+groupKey(op.OnVal)+"):leaves-locked", op.Instr.Pos(), "%s, reached from TaskRunner.Run (%s), can return (at %s) with %s still held: whoever is to release it must be reached on every later path of the run, including the early returns — otherwise the next task that takes it waits for ever", an.Short(fn), p.PathString(reach[fn]), where, groupKey(op.OnVal))
+		}
+	}
+	c.Sites[rule] = append(c.Sites[rule], fmt.Sprintf("%d mutex acquisitions under TaskRunner.Run checked for release in the acquiring function", n))
 }
